@@ -184,7 +184,11 @@ func (d *Decoder) decodeSet(mem MemCache, msg *Message) error {
 	minLen := 5
 	if setHeader.SetID > 255 && err == nil {
 		if minLen = tr.minRecordLen(); minLen < 1 {
-			minLen = 1
+			// records without any octets can not be delimited
+			err = nonfatalError{fmt.Errorf("%s ipfix template id# %d describes empty records",
+				d.raddr.String(),
+				setHeader.SetID,
+			)}
 		}
 	}
 
